@@ -239,11 +239,16 @@ def specMd (f : MdF) (m : Mode) (ax : Axis) (a : Table α) (others : List (Table
 def mdOk (f : MdF) (m : Mode) (ax : Axis) (a : Table α) (others : List (Table α)) (r : Table α) : Bool :=
   (r.ids ax).all (fun id => canon (r.mdOf? ax id) == canon ((specMd f m ax a others).md id))
 
+/-- a union axis on which the receiver and the first other operand both have no IDs: the first
+pairwise step has nothing to build on that axis (degenerate operands; either outcome is accepted) -/
+def emptyUnionStart (m : Mode) (ax : Axis) (ts : List (Table α)) : Bool :=
+  m == .union && (ts.take 2).all (fun t => (t.ids ax).isEmpty)
+
 open Codec in
 def verdict [Add α] [Zero α] [DecidableEq α] (inp : Input α) (out : Except Err (Table α)) : Verdict :=
   let ts := inp.operands
   let emptyInter := (inp.ms == .inter && expEmpty .inter .samp ts) || (inp.mo == .inter && expEmpty .inter .obs ts)
-  let emptyUnion := (inp.ms == .union && expEmpty .union .samp ts) || (inp.mo == .union && expEmpty .union .obs ts)
+  let emptyUnion := emptyUnionStart inp.ms .samp ts || emptyUnionStart inp.mo .obs ts
   match out with
   | .error e =>
     -- an empty intersection must raise TableException; nothing else may raise
